@@ -181,6 +181,58 @@ def _worker(job):
         return dict(name=name, result="error", reason=repr(e), model=None, time=time.time() - t0, solver="z3")
 
 
+def _child(job, conn):
+    try:
+        conn.send(_worker(job))
+    except Exception as e:
+        try:
+            conn.send(dict(name=job[0], result="error", reason=repr(e), model=None, time=0.0, solver="z3"))
+        except Exception:
+            pass
+    finally:
+        conn.close()
+
+
+def _run_hard(jobs_list, jobs):
+    """One forked process per VC, at most `jobs` at a time, each under a hard wall-clock limit: z3 now and then does not honour its
+    own timeout (non-linear real arithmetic); such a worker is killed and its VC is `unknown` (undecided, never a violation)."""
+    ctx = mp.get_context("fork")
+    pending = list(jobs_list)[::-1]
+    running = {}      # name -> (process, conn, t0, limit)
+    results = {}
+    while pending or running:
+        while pending and len(running) < jobs:
+            job = pending.pop()
+            a, b = ctx.Pipe(duplex=False)
+            pr = ctx.Process(target=_child, args=(job, b), daemon=True)
+            pr.start()
+            b.close()
+            running[job[0]] = (pr, a, time.time(), 3 * (job[2] / 2000.0) + 30.0)
+        done = []
+        for name, (pr, conn, t0, limit) in running.items():
+            if conn.poll(0):
+                try:
+                    results[name] = conn.recv()
+                except EOFError:
+                    results[name] = dict(name=name, result="error", reason="solver process died", model=None, time=time.time() - t0, solver="z3")
+                done.append(name)
+            elif not pr.is_alive():
+                results[name] = dict(name=name, result="error", reason="solver process died", model=None, time=time.time() - t0, solver="z3")
+                done.append(name)
+            elif time.time() - t0 > limit:
+                pr.kill()
+                results[name] = dict(name=name, result="unknown", reason="timeout (the solver did not return within its own limit; worker killed)", model=None,
+                                     time=time.time() - t0, solver="z3")
+                done.append(name)
+        for name in done:
+            pr, conn, _, _ = running.pop(name)
+            pr.join(timeout=1)
+            conn.close()
+        if not done:
+            time.sleep(0.01)
+    return results
+
+
 def run_cvc5(text, timeout_s=CVC5_TIMEOUT_S, strings=False):
     """Second opinion on the SMT-LIB2 export.  Only `unsat` answers are used (to discharge)."""
     hdr = "(set-logic ALL)\n"
@@ -263,9 +315,7 @@ def discharge(vcs, axiom_index, jobs=JOBS, timeout_ms=Z3_TIMEOUT_MS, keep_smt=3,
         for j in jobs_list:
             results[j[0]] = _worker(j)
     else:
-        with cf.ProcessPoolExecutor(max_workers=jobs, mp_context=mp.get_context("fork")) as ex:
-            for r in ex.map(_worker, jobs_list, chunksize=1):
-                results[r["name"]] = r
+        results = _run_hard(jobs_list, jobs)
     # second back end for unknowns
     unknown = [k for k, r in results.items() if r["result"] in ("unknown", "error") and vcs[k].expect == "unsat"]
     second = {}
